@@ -476,6 +476,99 @@ def int_float_mix(e) -> bool:
     return int_float_mix(a) or int_float_mix(b)
 
 
+# --------------------------------------------------------------------------- shrinking of failing inputs
+
+
+def _referenced(content):
+    used = set()
+    for _, v in content["vars"] + content["pars"]:
+        if "ia" in v:
+            used |= set(v["ia"]["args"])
+    for _, f in content["derived"]:
+        used |= set(f["args"])
+    for _, r in content["rxns"]:
+        used |= set(r["args"])
+        for cpd, c in r["st"]:
+            used.add(cpd)
+            used |= set(c.get("args", []))
+    return used
+
+
+def shrink_candidates(content):
+    """smaller well-formed contents: drop an unreferenced component, a stoichiometry entry, simplify a function"""
+    import copy
+
+    used = _referenced(content)
+    for kind in ("rxns", "derived", "pars", "vars"):
+        for i, (k, _) in enumerate(content[kind]):
+            if k in used or (kind == "rxns" and len(content["rxns"]) == 1) or (kind == "vars" and len(content["vars"]) == 1):
+                continue
+            c = copy.deepcopy(content)
+            del c[kind][i]
+            yield c
+    for i, (_, r) in enumerate(content["rxns"]):
+        for j in range(len(r["st"])):
+            if len(r["st"]) > 1:
+                c = copy.deepcopy(content)
+                del c["rxns"][i][1]["st"][j]
+                yield c
+        for j, (_, cj) in enumerate(r["st"]):
+            if "c" not in cj:
+                c = copy.deepcopy(content)
+                c["rxns"][i][1]["st"][j][1] = {"c": "1"}
+                yield c
+
+    def fns(c):
+        for _, v in c["vars"] + c["pars"]:
+            if "ia" in v:
+                yield v["ia"]
+        for _, f in c["derived"]:
+            yield f
+        for _, r in c["rxns"]:
+            yield r
+
+    n = sum(1 for _ in fns(content))
+    for i in range(n):
+        c = copy.deepcopy(content)
+        f = list(fns(c))[i]
+        simple = ["a", 0]
+        for a in range(1, len(f["args"])):
+            simple = ["+", simple, ["a", a]]
+        if f["e"] != simple and not f.get("bad"):
+            f["e"] = simple
+            yield c
+        if len(f["args"]) > 1 and not f.get("bad"):
+            c2 = copy.deepcopy(content)
+            f2 = list(fns(c2))[i]
+            f2["args"] = f2["args"][:1]
+            f2["e"] = ["a", 0]
+            yield c2
+
+
+def shrink(case, still_fails, budget: int = 60):
+    """greedy delta debugging over `case["content"]`; `still_fails(case) -> bool` re-runs R and S"""
+    import copy
+
+    cur = copy.deepcopy(case)
+    spent = 0
+    progress = True
+    while progress and spent < budget:
+        progress = False
+        for cand in shrink_candidates(cur["content"]):
+            if spent >= budget:
+                break
+            trial = dict(cur, content=cand)
+            spent += 1
+            try:
+                if still_fails(trial):
+                    cur = trial
+                    progress = True
+                    break
+            except Exception:  # noqa: BLE001  a candidate the harness cannot build is just not a witness
+                continue
+    return cur, spent
+
+
 def answer_exact(ans, bits: int = 48) -> bool:
     """every rational in a canonical answer is a dyadic of at most `bits` bits, so the real model's double
     arithmetic (including the final stoichiometric sums, which the spec does not guard) was exact"""
